@@ -1,4 +1,5 @@
 import SstModel.Lemmas.Faulty
+import SstModel.Lemmas.FaultyScan
 import SstModel.Props.ReaderWF
 /-
   C14 — Failures of the random-access source do not stick.
@@ -16,7 +17,7 @@ import SstModel.Props.ReaderWF
   (`FileOK`) and the cache is coherent for this table (`Coherent`) and validated (`CacheValid`, C08);
   NOTHING about the fault schedule.
 
-  `NoShortCollision t` (decidable, evaluated by the harness on the images it runs): a zero-padded short
+  `NoShortCollision t`: a zero-padded short
   read of a data block does not pass CRC verification + structure validation with other contents. It
   needs no assumption when the short read misses at most the last 4 bytes (`C14_short_tail`); in general
   it excludes a CRC-32C collision between a block and its zero-filled truncation.
@@ -118,6 +119,106 @@ theorem C14_short_tail (cmp : Cmp) (t : TableImg) (hwf : t.WF cmp) (d : DBlock) 
     c = d.blk.contents :=
   FT.short_tail_no_collision cmp t hwf d hd k c hk1 hk2 hv
 
+/-! ### scans and open under faults -/
+
+section
+variable (cmp : Cmp) (hc : cmp.Lawful) (p : FilterPolicy) (t : TableImg) (hwf : t.WF cmp)
+  (fv : Option Bytes) (tb : Table) (hop : Opened tb t cmp p fv)
+include hc hwf hop
+
+/-- C14 (scans): under ANY fault schedule, from a before-first iterator (`SimT t tb it none`: a fresh
+    iterator, `C14_scan_fresh`, or any iterator after `reset`, `C14_scan_after_reset`), calling `next`
+    until it first returns `none`:
+    * ends after `n + 1 ≤ t.entries.length + 1` calls,
+    * yields exactly the entries of a sublist `bs` of the data blocks — only original entries, in table
+      order, whole blocks (all entries of a kept block, contiguously) — then `none`,
+    * `bs` is exactly the list of blocks whose `read_block` succeeded in this run (`FT.ScanFrom`: the reads
+      are made in block order, each returns the true contents or an error), and every omitted block
+      consumed at least one fault of the schedule (`FT.faultCount`: entries of `sched` other than `none`),
+    * keeps the file, the coherence and the validity of the cache, and leaves the iterator before-first. -/
+theorem C14_scan (hns : NoShortCollision t) (w : World) (hf : FileOK w tb.file t.img)
+    (hcoh : Coherent w tb.cacheId t) (hcv : CacheValid w) (it : TableIter) (hs : SimT t tb it none) :
+    ∃ bs w' it', bs.Sublist t.blocks ∧ FT.ScanFrom tb w t.blocks bs w'
+      ∧ (bs.flatMap (·.blk.kvs)).length ≤ t.entries.length
+      ∧ it.run (List.replicate ((bs.flatMap (·.blk.kvs)).length + 1) IterOp.next) w
+          = (w', .ok (it', (bs.flatMap (·.blk.kvs)).map (fun e => IterOut.entry (some e))
+                            ++ [IterOut.entry none]))
+      ∧ FileOK w' tb.file t.img ∧ Coherent w' tb.cacheId t ∧ CacheValid w' ∧ SimT t tb it' none
+      ∧ (t.blocks.length - bs.length) + FT.faultCount w' ≤ FT.faultCount w := by
+  obtain ⟨bs, w', it', hscan, hrun, hinv, hsT, hcount⟩ :=
+    FT.scan_faulty cmp hc p t hwf fv tb hop hns w ⟨hf, hcoh, hcv⟩ it hs
+  exact ⟨bs, w', it', hscan.sublist, hscan, FT.scan_length_le t hscan.sublist, hrun,
+    hinv.1, hinv.2.1, hinv.2.2, hsT, hcount⟩
+
+/-- C14 (scans, any number of calls): with `bs` the blocks kept by the scan of `C14_scan`, ANY shorter run
+    of `m ≤ n + 1` calls of `next` returns the first `m` outputs of that scan — original entries in table
+    order, a prefix of the whole-block sequence -/
+theorem C14_scan_prefix (hns : NoShortCollision t) (w : World) (hf : FileOK w tb.file t.img)
+    (hcoh : Coherent w tb.cacheId t) (hcv : CacheValid w) (it : TableIter) (hs : SimT t tb it none) :
+    ∃ bs : List DBlock, bs.Sublist t.blocks ∧ ∀ m, m ≤ (bs.flatMap (·.blk.kvs)).length + 1 →
+      ∃ w1 it1, it.run (List.replicate m IterOp.next) w
+        = (w1, .ok (it1, ((bs.flatMap (·.blk.kvs)).map (fun e => IterOut.entry (some e))
+                            ++ [IterOut.entry none]).take m)) := by
+  obtain ⟨bs, w', it', hscan, hrun, _⟩ :=
+    FT.scan_faulty cmp hc p t hwf fv tb hop hns w ⟨hf, hcoh, hcv⟩ it hs
+  refine ⟨bs, hscan.sublist, ?_⟩
+  intro m hm
+  obtain ⟨k, hk⟩ : ∃ k, (bs.flatMap (·.blk.kvs)).length + 1 = m + k := ⟨_, (Nat.add_sub_cancel' hm).symm⟩
+  rw [hk, ← List.replicate_append_replicate] at hrun
+  obtain ⟨w1, it1, h1⟩ := FT.run_prefix _ _ it w w' it' _ hrun
+  rw [List.length_replicate] at h1
+  exact ⟨w1, it1, h1⟩
+
+/-- C14 (scans, no fault left): if the schedule holds no fault, nothing is omitted: the scan returns
+    exactly the entries of the table (whatever happened before) -/
+theorem C14_scan_no_faults (hns : NoShortCollision t) (w : World) (hf : FileOK w tb.file t.img)
+    (hcoh : Coherent w tb.cacheId t) (hcv : CacheValid w) (hnf : FT.faultCount w = 0)
+    (it : TableIter) (hs : SimT t tb it none) :
+    ∃ w' it', it.run (List.replicate (t.entries.length + 1) IterOp.next) w
+      = (w', .ok (it', t.entries.map (fun e => IterOut.entry (some e)) ++ [IterOut.entry none])) := by
+  obtain ⟨bs, w', it', hscan, hrun, _, _, hcount⟩ :=
+    FT.scan_faulty cmp hc p t hwf fv tb hop hns w ⟨hf, hcoh, hcv⟩ it hs
+  have hbs : bs = t.blocks := hscan.sublist.eq_of_length_le (by omega)
+  subst hbs
+  rw [FT.entries_flatMap]
+  exact ⟨w', it', hrun⟩
+
+/-- a fresh iterator is before-first, in any world -/
+theorem C14_scan_fresh (w : World) :
+    ∃ it, TableIter.new tb w = (w, .ok it) ∧ SimT t tb it none :=
+  iter_new_ok cmp hc p t hwf fv tb hop w
+
+/-- any iterator of a session (`IterOK`, on this table) is before-first after `reset` -/
+theorem C14_scan_after_reset (it : TableIter) (hit : IterOK it) (htab : it.table = tb) :
+    SimT t tb it.reset none :=
+  FT.simT_reset_of_good cmp hc p t hwf fv tb hop ⟨hit, htab⟩
+
+end
+
+/-- C14 (open): under ANY fault schedule, on a file holding a well-formed image, `Table::new` returns an
+    error — and then leaves the cache untouched — or the handle of the image (`Opened`, for the filter block
+    `fv` the reader policy sees); the file is kept and the cache contents are never changed by `open`.
+    `NoShortCollisionMeta p t` is `NoShortCollision` for the index / metaindex / filter blocks. -/
+theorem C14_open_right_or_error (cmp : Cmp) (hc : cmp.Lawful) (p : FilterPolicy) (t : TableImg)
+    (hwf : t.WF cmp) (fv : Option Bytes) (hfv : FilterView p t fv) (hnsm : NoShortCollisionMeta p t)
+    (w : World) (file : Nat) (hf : FileOK w file t.img) :
+    let r := Table.new ⟨cmp, p⟩ file t.img.length w
+    FileOK r.1 file t.img ∧ r.1.cache.entries = w.cache.entries ∧ r.1.cache.cap = w.cache.cap
+      ∧ ((∃ c, r.2 = .err c ∧ r.1.cache = w.cache)
+        ∨ (∃ tb, r.2 = .ok tb ∧ Opened tb t cmp p fv ∧ tb.file = file
+            ∧ tb.cacheId = (w.cache.nextId + 1) % 2 ^ 64
+            ∧ r.1.cache.nextId = (w.cache.nextId + 1) % 2 ^ 64)) :=
+  FT.open_faulty cmp hc p t hwf fv hfv hnsm w file hf
+
+/-- the clauses of `NoShortCollisionMeta` (and of `NoShortCollision`) need no assumption for short reads that
+    miss at most the last 4 bytes of the physical block, for ANY verified block -/
+theorem C14_short_tail_any (img : Bytes) (h : BlockHandle) (c0 : Bytes) (hread : blockAt img h = .ok c0)
+    (k : Nat) (c : Bytes) (hk1 : h.size + 1 ≤ k) (hk2 : k ≤ h.size + 5)
+    (hv : verifyBlock (((cleanBuf img h.offset (h.size + 5)).take k)
+        ++ List.replicate (h.size + 5 - k) 0) h.size = .ok c) :
+    c = c0 :=
+  FT.short_tail_at img h c0 hread k c hk1 hk2 hv
+
 end Sst
 
 #print axioms Sst.C14_read_block
@@ -126,3 +227,10 @@ end Sst
 #print axioms Sst.C14_session
 #print axioms Sst.C14_recovers
 #print axioms Sst.C14_short_tail
+#print axioms Sst.C14_scan
+#print axioms Sst.C14_scan_prefix
+#print axioms Sst.C14_scan_no_faults
+#print axioms Sst.C14_scan_fresh
+#print axioms Sst.C14_scan_after_reset
+#print axioms Sst.C14_open_right_or_error
+#print axioms Sst.C14_short_tail_any
